@@ -1191,6 +1191,7 @@ canary_check(void *user)
   struct vs_hdr *h = (struct vs_hdr *)((char *)user - VS_HDR);
   unsigned char *c;
   unsigned i;
+  BIG_UNPOISON(h, VS_HDR);
   if (h->magic != VS_MAGIC) {
     if (!(vs_rec->inv_flags & 256))
       snprintf(vs_rec->note, sizeof vs_rec->note, "heap block %p: header overwritten (write in front of an allocation)", user);
@@ -1279,6 +1280,7 @@ vs_malloc(size_t n)
     for (i = 0; i < VS_CAN; i++)
       ((unsigned char *)p)[n + i] = (unsigned char)(0xA5 ^ i);
     BIG_POISON((char *)p + n, VS_CAN);
+    BIG_POISON(b, VS_HDR);          /* reads in front of the block as well */
     ht_add(p);
   }
   return p;
